@@ -12,14 +12,14 @@ open Ariadne Ariadne.Builder Ariadne.CustomGen Ariadne.BuilderDoc
 
 theorem buildSelections_Q {st : Store} (hp : Pristine st) (fuel : Nat) :
     ∀ (ns : List Node) (idx : Nat) sels ns' st', buildSelections fuel idx st ns = .ok (sels, ns', st') →
-      st' = st ∧ All3 (Q st) ns sels ns' ∧ ∀ s ∈ sels, (selVars s).Nodup := by
+      st' = st ∧ All3 (Q st) ns sels ns' ∧ All3 (Qg fuel st) ns sels ns' ∧ ∀ s ∈ sels, (selVars s).Nodup := by
   intro ns
   induction ns with
   | nil =>
     intro idx sels ns' st' h
     simp [buildSelections] at h
     obtain ⟨rfl, rfl, rfl⟩ := h
-    exact ⟨rfl, .nil, by simp⟩
+    exact ⟨rfl, .nil, .nil, by simp⟩
   | cons n ns ih =>
     intro idx sels ns' st' h
     unfold buildSelections at h
@@ -27,14 +27,15 @@ theorem buildSelections_Q {st : Store} (hp : Pristine st) (fuel : Nat) :
     · simp at h
     · rename_i s n1 st1 u1 h1
       obtain ⟨rfl, q1⟩ := toAst_Q hp idx fuel _ _ _ _ _ _ h1
+      have g1 := (toAst_gf hp idx fuel _ _ _ _ _ _ h1).2
       have e1 := toAst_ext idx fuel _ _ _ _ _ _ _ h1
       split at h
       · simp at h
       · rename_i ss ns2 st2 h2
         simp at h
         obtain ⟨rfl, rfl, rfl⟩ := h
-        obtain ⟨rfl, q2, n2⟩ := ih _ _ _ _ h2
-        refine ⟨rfl, .cons q1 q2, ?_⟩
+        obtain ⟨rfl, q2, g2, n2⟩ := ih _ _ _ _ h2
+        refine ⟨rfl, .cons q1 q2, .cons g1 g2, ?_⟩
         intro t ht
         rcases List.mem_cons.mp ht with rfl | ht
         · exact e1.2.1
@@ -57,12 +58,11 @@ theorem lookupS_of_mem_nodup {α : Type} : ∀ (l : List (String × α)) (k : St
       exact lookupS_of_mem_nodup rest k v hn.2 hm
 
 /-- `declared_once_and_bound` at the level of one client call over a pristine process:
-    with no argument below level 2 and no name shared between two top-level fields, the document with
-    its variables substituted IS the tree of field objects; every variable is used once, and the
-    definitions are exactly the used variables, in order. -/
+    with no name shared between two top-level fields, the document with its variables substituted IS the
+    tree of field objects - whatever its depth; every variable is used once, and the definitions are
+    exactly the used variables, in order. -/
 theorem execOp_bound {st : Store} (hp : Pristine st) (ty nm : String) (nodes : List Node) (d : Doc) (st' : Store)
     (h : execOp ty nm st nodes = .ok (d, st'))
-    (hdeep : NoVarsBelowList 2 nodes = true)
     (hclash : crossClash d.sels = false) :
     st' = st ∧ resolveDoc d = some (intendedList st nodes) ∧ (docVars d).Nodup ∧
       d.varDefs.map (·.1) = docVars d ∧ d.opType = ty ∧ d.name = nm := by
@@ -70,23 +70,25 @@ theorem execOp_bound {st : Store} (hp : Pristine st) (ty nm : String) (nodes : L
   split at h
   · simp at h
   · rename_i sels nodes' st2 hb
-    obtain ⟨rfl, q, hn⟩ := buildSelections_Q hp _ _ _ _ _ _ hb
-    simp at h
-    obtain ⟨rfl, rfl⟩ := h
-    simp only [] at hclash
-    have hU : (selVarsList sels).Nodup := nodup_of_crossClash sels hclash hn
-    have hun : unames (fmtAllList nodes') = selVarsList sels := all3_unames q
-    have hdp : fmtAllList nodes' = fmtDepthList 2 nodes' := all3_depth 2 q hdeep
-    have hD : combine st2 nodes' = fmtAllList nodes' := by
-      unfold combine
-      have := combine_eq hp nodes' [] (by simpa [← hdp, hun] using hU)
-      simpa [← hdp] using this
-    have hlook := lookup_of_nodup (fmtAllList nodes') (by rw [hun]; exact hU)
-    refine ⟨rfl, ?_, hU, ?_, rfl, rfl⟩
-    · simp only [resolveDoc, hD]
-      exact all3_resolve q hlook
-    · simp only [hD, docVars, List.map_map, Function.comp_def]
-      exact hun
+    obtain ⟨rfl, q, g, hn⟩ := buildSelections_Q hp _ _ _ _ _ _ hb
+    split at h
+    · simp at h
+    · rename_i fv hfv
+      simp at h
+      obtain ⟨rfl, rfl⟩ := h
+      simp only [] at hclash
+      have hU : (selVarsList sels).Nodup := nodup_of_crossClash sels hclash hn
+      have hun : unames (fmtAllList nodes') = selVarsList sels := all3_unames q
+      have hD : fv = fmtAllList nodes' := by
+        rw [combine_eq g (by rw [hun]; exact hU)] at hfv
+        simpa using hfv.symm
+      subst hD
+      have hlook := lookup_of_nodup (fmtAllList nodes') (by rw [hun]; exact hU)
+      refine ⟨rfl, ?_, hU, ?_, rfl, rfl⟩
+      · simp only [resolveDoc]
+        exact all3_resolve q hlook
+      · simp only [docVars, List.map_map, Function.comp_def]
+        exact hun
 
 theorem getLast_runOps (p : Package) (H : List Op) (E : Op)
     (hH : ∀ op ∈ H, opMutatesShared op = false) :
@@ -112,12 +114,11 @@ theorem storeExact_init (p : Package) (h : ∀ ca ∈ p.sharedList, ca.2.fieldNa
     exact this
 
 /-- everything the operation `E` guarantees when neither it nor the history mutates a class-level object
-    and it lies outside the F1, F2, F3, F5 triggers -/
+    and it lies outside the F1, F3, F5 triggers (F2 - arguments below level 2 - is fixed: no depth condition) -/
 theorem op_good (p : Package) (H : List Op) (E : Op) (d : Doc)
     (hshared : ∀ ca ∈ p.sharedList, ca.2.fieldName = ca.2.gqlName)
     (hH : ∀ op ∈ H, opMutatesShared op = false) (hE : opMutatesShared E = false)
-    (h1 : trigListArgList p E.fields = false) (h2 : trigDeepList 1 E.fields = false)
-    (h3 : trigPyNameList p E.fields = false)
+    (h1 : trigListArgList p E.fields = false) (h3 : trigPyNameList p E.fields = false)
     (hrun : (runOps p (H ++ [E])).getLast? = some (.ok d))
     (h5 : crossClash d.sels = false) :
     resolveDoc d = Intended p E ∧ (Intended p E).isSome ∧ (docVars d).Nodup ∧ d.varDefs.map (·.1) = docVars d ∧
@@ -144,8 +145,8 @@ theorem op_good (p : Package) (H : List Op) (E : Op) (d : Doc)
       rw [he] at hrun
       simp at hrun
       subst hrun
-      obtain ⟨n1, n2⟩ := evalList_nodesOK p E.fields 1 _ _ nodes hE h2 h1 h3 hl
-      obtain ⟨-, b1, b2, b3, b4, b5⟩ := execOp_bound hp _ _ nodes d' st2 he n1 h5
+      have n2 := evalList_nodesOK p E.fields _ _ nodes hE h1 h3 hl
+      obtain ⟨-, b1, b2, b3, b4, b5⟩ := execOp_bound hp _ _ nodes d' st2 he h5
       have hf := evalList_fresh p E.fields _ nodes hE hl
       have hI : Intended p E = some (intendedList p.initStore nodes) := by
         simp only [Intended, hf]
